@@ -7,6 +7,7 @@ import FqModel.Serial.Cbor
 import FqModel.Serial.Bencode
 import FqModel.Serial.Bson
 import FqModel.Serial.Json
+import FqModel.Serial.Ber
 /-! driver for C16
 
   `<format> <hex of the input> <kind> <source value>` TAB `<observation of fq -d <format> torepr>`
@@ -43,6 +44,7 @@ def models (fmt : String) : Option ((Bytes → Res (V × Bytes)) × Option (Byte
   | "cbor" => some (Cbor.decode, some Cbor.decodeFixed, "cbor-indef-string-break")
   | "bencode" => some (Bencode.decode, none, "")
   | "bson" => some (Bson.decode, none, "")
+  | "asn1_ber" => some (Ber.decode, some Ber.decodeFixed, "asn1-ber-zero-length")
   | "json" => some (Json.decode, none, "")
   | "jsonl" => some (Json.decodeLines, none, "")
   | _ => none
@@ -78,7 +80,7 @@ partial def hasBomString (anywhere : Bool) : V → Bool
   | .map kvs => kvs.any (fun (k, v) => hasBomString anywhere k || hasBomString anywhere v)
   | _ => false
 
-/-- bson known finding `bson-string-nul-cut`: the source has a string with an embedded NUL -/
+/-- bson known finding `bson-string-embedded-nul`: the source has a string with an embedded NUL -/
 partial def hasNulString : V → Bool
   | .str s => s.contains 0
   | .arr xs => xs.any hasNulString
@@ -106,11 +108,10 @@ def stepC16 (op obs : String) : String :=
             if known then s!"KNOWN {key} expected={exp}"
             else if m == obs && hasBomString (fmt == "cbor") src && kind != "trunc" && kind != "bad" then
               s!"KNOWN utf8-bom-stripped expected={exp}"
-            else if fmt == "msgpack" && m == obs && (input.head? == some 0xc8 || input.head? == some 0xc9)
-                && kind != "trunc" && kind != "bad" then
-              s!"KNOWN msgpack-ext-length expected={exp}"
+            else if fmt == "cbor" && m == obs && input.head? == some 0xf8 && kind != "trunc" && kind != "bad" then
+              s!"KNOWN cbor-simple-value-argument expected={exp}"
             else if fmt == "bson" && m == obs && hasNulString src && kind != "trunc" && kind != "bad" then
-              s!"KNOWN bson-string-nul-cut expected={exp}"
+              s!"KNOWN bson-string-embedded-nul expected={exp}"
             else s!"PROPFAIL expected={exp}{div}"
     | none, _, _ => "BADOP format"
     | _, none, _ => "BADOP hex"
